@@ -1,7 +1,24 @@
-(** Lemmas about the parser model (Lef/LefParse.v). *)
+(** Lemmas about the parser model (Lef/LefParse.v): the reader neither panics nor runs out of fuel.
+
+    Setting: any [cfg] whose lexer counts bytes ([c_charpos cf = false], the repaired code), any source that
+    starts on a character boundary (every valid UTF-8 text does, [valid_starts_on_boundary]).
+
+    Token-stream invariant [st_ok]: every remaining token's span and line start are character boundaries of
+    the source (from [lex_ok_gen]) and the stream does not end in LPanic / LFuel.
+    Outcome predicate [R st0 c Q r]: r is not Panic and not OutOfFuel, and when r = Ok (a, st') then st' is
+    again [st_ok], at least [c] tokens of st0 were consumed, and Q a.
+    [Spec m pre c Q]: from every [st_ok] state satisfying [pre], running m has outcome R.  There is one
+    [Spec] instance per `parse_*` function / loop of the model; loops carry the precondition
+    "fuel > number of remaining tokens" and are proved by induction on the fuel (every iteration that goes
+    round again has consumed a token).  The tactic [run] executes the monadic code symbolically: at each
+    bind it looks the callee's [Spec] up by typeclass resolution; `txt`, `state()` (through `fail`,
+    `fail_msg`, `fail_ignored`), `next_token`, `advance`, `peek_key` have hand-proved rules.
+
+    The code as found (character positions) is refuted by [parse_orig_panics_version/_macro]. *)
 From Coq Require Import ZArith List Bool Lia.
 From L21 Require Import Lef.LefDec Lef.LefData Lef.LefLex Lef.LefParse Lef.LefLex_proofs.
 Import ListNotations.
+Local Open Scope list_scope.
 Local Open Scope Z_scope.
 
 Lemma parse_orig_panics_version : parse cfg_orig witness_version = Panic.
@@ -10,3 +27,452 @@ Lemma parse_orig_panics_macro : parse cfg_orig witness_macro = Panic.
 Proof. vm_compute. reflexivity. Qed.
 Lemma parse_fixed_version : exists e, parse cfg_fixed witness_version = Err e.
 Proof. vm_compute. eexists. reflexivity. Qed.
+
+Lemma line_span_moved : forall s left nch nb k nb',
+  line_span s left nch nb = (k, nb') ->
+  exists x r, s = x ++ r /\ nb' = nb + Z.of_nat (length x) /\ starts_on_boundary r = true.
+Proof.
+  induction s as [|b s IH]; intros left nch nb k nb' H; simpl in H.
+  - injection H as <- <-. exists [], []. simpl. repeat split; lia.
+  - destruct (is_cont b) eqn:C.
+    + destruct (IH _ _ _ _ _ H) as (x & r & -> & -> & S). exists (b :: x), r.
+      repeat split; auto. simpl length. lia.
+    + destruct ((b =? 10) || (left <=? 0)).
+      * injection H as <- <-. exists [], (b :: s). simpl. rewrite C. repeat split; lia.
+      * destruct (IH _ _ _ _ _ H) as (x & r & -> & -> & S). exists (b :: x), r.
+        repeat split; auto. simpl length. lia.
+Qed.
+
+Section Safe.
+Variable cf : cfg.
+Variable src : bytes.
+Hypothesis Hcf : c_charpos cf = false.
+Hypothesis Hsrc : starts_on_boundary src = true.
+
+Definition len (st : pst) : nat := List.length (p_toks st).
+Definition st_ok (st : pst) : Prop := Forall (ti_ok src) (p_toks st) /\ end_ok src (p_end st).
+
+(** outcome of a parser step started in a state reached from [st0]: no panic, no fuel exhaustion, and a
+    returned state is well-formed and has consumed at least [c] tokens of [st0] *)
+Definition R {A} (st0 : pst) (c : nat) (Q : A -> Prop) (r : res (A * pst)) : Prop :=
+  match r with
+  | Ok (a, st') => st_ok st' /\ (len st' + c <= len st0)%nat /\ Q a
+  | Panic | OutOfFuel => False
+  | _ => True
+  end.
+
+Class Spec {A} (m : P A) (pre : pst -> Prop) (c : nat) (Q : A -> Prop) : Prop :=
+  spec : forall st, st_ok st -> pre st -> R st c Q (m st).
+
+Definition T {A} : A -> Prop := fun _ => True.
+Definition Tp : pst -> Prop := fun _ => True.
+
+(** ** structural rules *)
+Lemma R_bind {A B} (m : P A) (k : A -> P B) pre c1 Q1 st0 c (Q : B -> Prop) st :
+  Spec m pre c1 Q1 -> st_ok st -> pre st ->
+  (forall a st', st_ok st' -> (len st' + c1 <= len st)%nat -> Q1 a -> R st0 c Q (k a st')) ->
+  R st0 c Q (bind m k st).
+Proof.
+  intros S Hok Hpre K. unfold bind. pose proof (S st Hok Hpre) as H.
+  destruct (m st) as [[a st']|e| | |]; simpl in *; auto.
+  destruct H as (H1 & H2 & H3). apply K; auto.
+Qed.
+Lemma R_tail {A} (m : P A) pre c1 Q1 st0 c (Q : A -> Prop) st :
+  Spec m pre c1 Q1 -> st_ok st -> pre st ->
+  (forall a st', st_ok st' -> (len st' + c1 <= len st)%nat -> Q1 a -> (len st' + c <= len st0)%nat /\ Q a) ->
+  R st0 c Q (m st).
+Proof.
+  intros S Hok Hpre K. pose proof (S st Hok Hpre) as H.
+  destruct (m st) as [[a st']|e| | |]; simpl in *; auto.
+  destruct H as (H1 & H2 & H3). destruct (K a st' H1 H2 H3). auto.
+Qed.
+Lemma R_assoc {A B C} (m : P A) (k1 : A -> P B) (k2 : B -> P C) st0 c (Q : C -> Prop) st :
+  R st0 c Q (bind m (fun a => bind (k1 a) k2) st) -> R st0 c Q (bind (bind m k1) k2 st).
+Proof. unfold bind. destruct (m st) as [[a st']|e| | |]; auto. Qed.
+Lemma R_get {B} (k : pst -> P B) st0 c (Q : B -> Prop) st :
+  R st0 c Q (k st st) -> R st0 c Q (bind get k st).
+Proof. exact (fun x => x). Qed.
+Lemma R_ret_bind {A B} (a : A) (k : A -> P B) st0 c (Q : B -> Prop) st :
+  R st0 c Q (k a st) -> R st0 c Q (bind (ret a) k st).
+Proof. exact (fun x => x). Qed.
+Lemma R_ret {A} (a : A) st0 c (Q : A -> Prop) st :
+  st_ok st -> (len st + c <= len st0)%nat -> Q a -> R st0 c Q (ret a st).
+Proof. intros; simpl; auto. Qed.
+Lemma R_ok {A} (a : A) st0 c (Q : A -> Prop) st :
+  st_ok st -> (len st + c <= len st0)%nat -> Q a -> R st0 c Q (Ok (a, st)).
+Proof. intros; simpl; auto. Qed.
+
+(** ** the error path *)
+Lemma peek_tok_ok : forall st t, st_ok st -> peek_token st = Some t -> tok_ok src t.
+Proof.
+  intros st t [F _] H. unfold peek_token in H. destruct (p_toks st) as [|ti r]; [discriminate|].
+  injection H as <-. inversion F as [|? ? [H1 _] _]. exact H1.
+Qed.
+Lemma content_ok : forall ls, bnd src ls ->
+  exists lc,
+    match (if 0 <=? ls then drop (Z.to_nat ls) src else None) with
+    | None => None
+    | Some s =>
+      if starts_on_boundary s then
+        let '(_, nb) := line_span s 200 0 0 in slice src ls (ls + nb)
+      else None
+    end = Some lc.
+Proof.
+  intros ls B. pose proof B as (pre & rem & E & -> & S).
+  replace (0 <=? Z.of_nat (Datatypes.length pre)) with true by (symmetry; apply Z.leb_le; lia).
+  rewrite Nat2Z.id.
+  assert (D : drop (Datatypes.length pre) src = Some rem) by (rewrite E; apply drop_app).
+  rewrite D, S.
+  destruct (line_span rem 200 0 0) as [k nb] eqn:L.
+  destruct (line_span_moved _ _ _ _ _ _ L) as (x & r & -> & -> & Sr).
+  assert (B2 : bnd src (Z.of_nat (Datatypes.length pre) + (0 + Z.of_nat (Datatypes.length x)))).
+  { exists (pre ++ x), r. rewrite E, app_assoc, app_length. repeat split; auto. lia. }
+  destruct (slice_bnd _ _ _ B B2 ltac:(lia)) as (s & Es & _). exists s. exact Es.
+Qed.
+Lemma lexer_view_bnd : forall st, st_ok st ->
+  bnd src (snd (lexer_view st)).
+Proof.
+  intros st [F E]. unfold lexer_view. destruct (p_toks st) as [|ti r].
+  - destruct (p_end st); simpl in *; auto; try (apply bnd_zero; exact Hsrc).
+  - inversion F as [|? ? [_ H2] _]. exact H2.
+Qed.
+Lemma state_ok : forall st, st_ok st -> exists x, state cf src st = Some x.
+Proof.
+  intros st Hok. unfold state.
+  pose proof (lexer_view_bnd st Hok) as B.
+  destruct (lexer_view st) as [[[rem pos] line] ls]. simpl in B.
+  rewrite Hcf. destruct (content_ok ls B) as [lc EC].
+  destruct (peek_token st) as [t|] eqn:E.
+  - destruct (tok_ok_substr _ _ (peek_tok_ok _ _ Hok E)) as [tk ->]. rewrite EC. eexists; reflexivity.
+  - rewrite EC. eexists; reflexivity.
+Qed.
+
+Global Instance fail_msg_spec {A} tp m : Spec (@fail_msg cf src A tp m) Tp 0 (fun _ => False).
+Proof.
+  intros st Hok _. unfold fail_msg. destruct (state_ok st Hok) as [[[[tk lc] line] pos] ->]. exact I.
+Qed.
+Global Instance fail_spec {A} tp : Spec (@fail cf src A tp) Tp 0 (fun _ => False).
+Proof. unfold fail. apply fail_msg_spec. Qed.
+Global Instance fail_ignored_spec : Spec (fail_ignored cf src) Tp 0 T.
+Proof.
+  intros st Hok _. unfold fail_ignored. destruct (state_ok st Hok) as [x ->].
+  simpl. split; [exact Hok | split; [lia | exact I]].
+Qed.
+Lemma R_fail {A} tp st0 c (Q : A -> Prop) st : st_ok st -> R st0 c Q (@fail cf src A tp st).
+Proof.
+  intros Hok. pose proof (fail_spec (A:=A) tp st Hok I) as H.
+  destruct (fail cf src tp st) as [[a st']|e| | |]; simpl in *; auto. destruct H as (_ & _ & []).
+Qed.
+Lemma R_fail_msg {A} tp m st0 c (Q : A -> Prop) st : st_ok st -> R st0 c Q (@fail_msg cf src A tp m st).
+Proof.
+  intros Hok. pose proof (fail_msg_spec (A:=A) tp m st Hok I) as H.
+  destruct (fail_msg cf src tp m st) as [[a st']|e| | |]; simpl in *; auto. destruct H as (_ & _ & []).
+Qed.
+
+(** ** token primitives *)
+Lemma st_ok_tail : forall st ti r, st_ok st -> p_toks st = ti :: r -> st_ok (with_toks st r) /\ tok_ok src (ti_tok ti).
+Proof.
+  intros st ti r [F E] H. rewrite H in F. inversion F as [|? ? [H1 _] H2]. subst.
+  split; [split; assumption | assumption].
+Qed.
+Lemma R_next_token {B} (k : option token -> P B) st0 c (Q : B -> Prop) st :
+  st_ok st ->
+  (forall t st', st_ok st' -> S (len st') = len st -> tok_ok src t -> R st0 c Q (k (Some t) st')) ->
+  (len st = 0%nat -> R st0 c Q (k None st)) ->
+  R st0 c Q (bind next_token k st).
+Proof.
+  intros Hok K1 K2. unfold bind, next_token. destruct (p_toks st) as [|ti r] eqn:E.
+  - apply K2. unfold len. rewrite E. reflexivity.
+  - destruct (st_ok_tail _ _ _ Hok E) as [Hok' Ht].
+    assert (L : S (len (with_toks st r)) = len st) by (unfold len; rewrite E; reflexivity).
+    pose proof (proj2 Hok) as HE.
+    destruct r as [|ti2 r2]; [destruct (p_end st); simpl in HE; try contradiction; try exact I|]; apply K1; auto.
+Qed.
+Lemma R_advance {B} (k : unit -> P B) st0 c (Q : B -> Prop) st :
+  st_ok st ->
+  (forall st', st_ok st' -> len st' = (len st - 1)%nat -> R st0 c Q (k tt st')) ->
+  R st0 c Q (bind (advance) k st).
+Proof.
+  intros Hok K. unfold advance. apply R_assoc. apply R_next_token; auto.
+  - intros t st' H1 H2 _. apply R_ret_bind. apply K; auto. lia.
+  - intros H0. apply R_ret_bind. apply K; auto. lia.
+Qed.
+Lemma R_advance_tail st0 c (Q : unit -> Prop) st :
+  st_ok st -> (1 <= len st)%nat -> (len st <= len st0 + 1 - c)%nat -> Q tt -> R st0 c Q (advance st).
+Proof.
+  intros Hok L1 L2 Hq. unfold advance.
+  apply R_next_token; auto.
+  - intros t st' H1 H2 _. apply R_ret; auto. lia.
+  - intros H0. lia.
+Qed.
+Lemma R_txt {B} (t : token) (k : bytes -> P B) st0 c (Q : B -> Prop) st :
+  tok_ok src t -> (forall s, R st0 c Q (k s st)) -> R st0 c Q (bind (txt src t) k st).
+Proof.
+  intros Ht K. unfold bind, txt. destruct (tok_ok_substr _ _ Ht) as [s ->]. apply K.
+Qed.
+Lemma R_txt_tail (t : token) st0 c (Q : bytes -> Prop) st :
+  tok_ok src t -> st_ok st -> (len st + c <= len st0)%nat -> (forall s, Q s) -> R st0 c Q (txt src t st).
+Proof.
+  intros Ht Hok L Hq. unfold txt. destruct (tok_ok_substr _ _ Ht) as [s ->]. simpl. auto.
+Qed.
+Lemma match_fail {A B} tp (k : A -> P B) st0 c (Q : B -> Prop) st : st_ok st ->
+  R st0 c Q (match fail cf src tp st with
+             | Ok (a, st') => k a st'
+             | Err e => Err e | Panic => Panic | OutOfFuel => OutOfFuel | Unmodelled => Unmodelled
+             end).
+Proof.
+  intros Hok. pose proof (fail_spec (A:=A) tp st Hok I) as H2.
+  destruct (fail cf src tp st) as [[a st']|e| | |]; simpl in *; auto. destruct H2 as (_ & _ & []).
+Qed.
+Lemma R_peek_key {B} (k : LefKey -> P B) st0 c (Q : B -> Prop) st :
+  st_ok st -> (forall key, (1 <= len st)%nat -> R st0 c Q (k key st)) -> R st0 c Q (bind (peek_key cf src) k st).
+Proof.
+  intros Hok K. unfold bind at 1. unfold peek_key. destruct (peek_token st) as [t|] eqn:E.
+  - assert (L : (1 <= len st)%nat).
+    { unfold peek_token in E. unfold len. destruct (p_toks st); [discriminate | simpl; lia]. }
+    destruct (ttype_eqb (t_ty t) TName).
+    + unfold bind, txt. destruct (tok_ok_substr _ _ (peek_tok_ok _ _ Hok E)) as [s ->].
+      destruct (LefKey_parse s) as [key|].
+      * simpl. apply K. exact L.
+      * apply match_fail. exact Hok.
+    + apply match_fail. exact Hok.
+  - apply match_fail. exact Hok.
+Qed.
+
+Lemma st_ok_with_ver : forall st v, st_ok st -> st_ok (with_ver st v).
+Proof. intros st v H. exact H. Qed.
+Lemma st_ok_with_ctx : forall st c, st_ok st -> st_ok (with_ctx st c).
+Proof. intros st c H. exact H. Qed.
+
+Global Instance push_spec c : Spec (push c) Tp 0 T.
+Proof. intros st Hok _. simpl. unfold T, len. simpl. repeat split; try apply Hok. lia. Qed.
+Global Instance pop_spec : Spec pop Tp 0 T.
+Proof. intros st Hok _. simpl. unfold T, len. simpl. repeat split; try apply Hok. lia. Qed.
+Global Instance lift_err_spec {A} e : Spec (@lift A (Err e)) Tp 0 T.
+Proof. intros st Hok _. exact I. Qed.
+Global Instance lift_unm_spec {A} : Spec (@lift A Unmodelled) Tp 0 T.
+Proof. intros st Hok _. exact I. Qed.
+Global Instance lift_dbu_spec x : Spec (lift (dbu_try_new cf x)) Tp 0 T.
+Proof.
+  intros st Hok _. unfold lift, dbu_try_new.
+  destruct (negb (dec_fract_is_zero x)); [exact I|].
+  destruct (dbu_allowed _); simpl; auto. split; [exact Hok | split; [lia | exact I]].
+Qed.
+Global Instance lift_gvb_spec rule b : Spec (lift (gen_via_build rule b)) Tp 0 T.
+Proof.
+  intros st Hok _. unfold lift, gen_via_build.
+  destruct (gb_cut_size b) as [[? ?]|]; [|exact I].
+  destruct (gb_layers b) as [[[? ?] ?]|]; [|exact I].
+  destruct (gb_cut_spacing b) as [[? ?]|]; [|exact I].
+  destruct (gb_enclosure b) as [[[[? ?] ?] ?]|]; [|exact I].
+  simpl. split; [exact Hok | split; [lia | exact I]].
+Qed.
+
+(** ** symbolic execution *)
+Ltac side :=
+  first [ exact I | assumption
+        | solve [unfold T, Tp; auto]
+        | (cbv beta; unfold len, fuel_of in *; simpl in *; lia) ].
+
+Ltac fin :=
+  first [ apply R_ret; [assumption | side | side]
+        | apply R_ok; [first [assumption | apply st_ok_with_ver; assumption | apply st_ok_with_ctx; assumption] | side | side] ].
+
+Ltac step :=
+  cbv beta;
+  lazymatch goal with
+  | |- R _ _ _ (bind ?m ?k ?st) =>
+    lazymatch m with
+    | get => apply R_get
+    | peek_key _ _ => apply R_peek_key; [assumption | let key := fresh "key" in intros key ?]
+    | advance => apply R_advance; [assumption | intros ? ? ?]
+    | next_token => apply R_next_token; [assumption | intros ? ? ? ? ? | intros ?]
+    | txt _ ?t => apply R_txt; [solve [eauto using peek_tok_ok] | intros ?]
+    | ret _ => apply R_ret_bind
+    | bind _ _ => apply R_assoc
+    | when _ _ => unfold when
+    | match ?x with _ => _ end => destruct x eqn:?
+    | _ => eapply R_bind; [typeclasses eauto | assumption | side | intros ? ? ? ? ?; try contradiction]
+    end
+  | |- R _ _ _ (ret _ _) => fin
+  | |- R _ _ _ (Ok _) => fin
+  | |- R _ _ _ (fail _ _ _ _) => apply R_fail; assumption
+  | |- R _ _ _ (fail_msg _ _ _ _ _) => apply R_fail_msg; assumption
+  | |- R _ _ _ (advance _) => apply R_advance_tail; [assumption | side | side | side]
+  | |- R _ _ _ (txt _ _ _) => apply R_txt_tail; [solve [eauto using peek_tok_ok] | assumption | side | intros; side]
+  | |- R _ _ _ (lift OutOfFuel _) => exfalso; side
+  | |- R _ _ _ (when _ _ _) => unfold when
+  | |- R _ _ _ (?f ?st) =>
+    lazymatch f with
+    | match ?x with _ => _ end => destruct x eqn:?
+    | _ => eapply R_tail; [typeclasses eauto | assumption | side | intros ? ? ? ? ?; split; side]
+    end
+  end.
+Ltac run := repeat step.
+Ltac start := let st := fresh "st" in let Hok := fresh "Hok" in let Hpre := fresh "Hpre" in
+  intros st Hok Hpre.
+
+(** ** the parser, function by function *)
+Global Instance expect_spec ty : Spec (expect cf src ty) Tp 1 (tok_ok src).
+Proof. start. unfold expect. run. Qed.
+Global Instance expect_and_get_str_spec ty : Spec (expect_and_get_str cf src ty) Tp 1 T.
+Proof. start. unfold expect_and_get_str. run. Qed.
+Global Instance get_name_spec : Spec (get_name cf src) Tp 1 T.
+Proof. unfold get_name. typeclasses eauto. Qed.
+Global Instance parse_ident_spec : Spec (parse_ident cf src) Tp 1 T.
+Proof. unfold parse_ident. typeclasses eauto. Qed.
+Global Instance get_key_spec : Spec (get_key cf src) Tp 1 T.
+Proof. start. unfold get_key. run. Qed.
+Global Instance expect_key_spec k : Spec (expect_key cf src k) Tp 1 T.
+Proof. start. unfold expect_key. run. Qed.
+Global Instance expect_ident_spec i : Spec (expect_ident cf src i) Tp 1 T.
+Proof. start. unfold expect_ident. run. Qed.
+Global Instance parse_enum_spec {X} (f : bytes -> option X) : Spec (parse_enum cf src f) Tp 1 T.
+Proof. start. unfold parse_enum. run. Qed.
+Global Instance parse_number_spec : Spec (parse_number cf src) Tp 1 T.
+Proof. start. unfold parse_number. run. Qed.
+Global Instance parse_point_spec : Spec (parse_point cf src) Tp 1 T.
+Proof. start. unfold parse_point. run. Qed.
+Global Instance expect_semi_spec : Spec (expect_semi cf src) Tp 1 T.
+Proof. start. unfold expect_semi. run. Qed.
+
+Ltac loop f := induction f as [|f IH]; intros; start; [exfalso; side|].
+Notation fuel_pre f := (fun st : pst => (len st < f)%nat).
+
+Global Instance point_list_loop_spec f : forall acc, Spec (point_list_loop cf src f acc) (fuel_pre f) 0 T.
+Proof. loop f. cbn [point_list_loop]. run. Qed.
+Global Instance parse_point_list_spec : Spec (parse_point_list cf src) Tp 0 T.
+Proof. start. unfold parse_point_list. run. Qed.
+Global Instance parse_version_spec : Spec (parse_version cf src) Tp 1 T.
+Proof. start. unfold parse_version. run. Qed.
+Global Instance parse_size_spec : Spec (parse_size cf src) Tp 1 T.
+Proof. start. unfold parse_size. run. Qed.
+Global Instance symm_loop_spec f : forall acc, Spec (symm_loop cf src f acc) (fuel_pre f) 0 T.
+Proof. loop f. cbn [symm_loop]. run. Qed.
+Global Instance parse_symmetries_spec : Spec (parse_symmetries cf src) Tp 1 T.
+Proof. start. unfold parse_symmetries. run. Qed.
+Global Instance opt_sub_spec {X} (f : bytes -> option X) : Spec (opt_sub cf src f) Tp 1 T.
+Proof. start. unfold opt_sub. run. Qed.
+Global Instance parse_macro_class_spec : Spec (parse_macro_class cf src) Tp 1 T.
+Proof. start. unfold parse_macro_class. run. Qed.
+Global Instance parse_geometry_mask_spec : Spec (parse_geometry_mask cf src) Tp 0 T.
+Proof. start. unfold parse_geometry_mask. run. Qed.
+Global Instance parse_iterate_spec : Spec (parse_iterate cf src) Tp 0 T.
+Proof. start. unfold parse_iterate. run. Qed.
+Global Instance parse_step_pattern_spec : Spec (parse_step_pattern cf src) Tp 1 T.
+Proof. start. unfold parse_step_pattern. run. Qed.
+Global Instance parse_geometry_tail_spec it sh : Spec (parse_geometry_tail cf src it sh) Tp 1 T.
+Proof. start. unfold parse_geometry_tail. run. Qed.
+Global Instance parse_geometry_spec : Spec (parse_geometry cf src) Tp 1 T.
+Proof. start. unfold parse_geometry. run. Qed.
+Global Instance layer_opts_loop_spec f : forall lg, Spec (layer_opts_loop cf src f lg) (fuel_pre f) 0 T.
+Proof. loop f. cbn [layer_opts_loop]. run. Qed.
+Global Instance layer_body_loop_spec f : forall lg, Spec (layer_body_loop cf src f lg) (fuel_pre f) 0 T.
+Proof. loop f. cbn [layer_body_loop]. run. Qed.
+Global Instance parse_layer_geometries_spec : Spec (parse_layer_geometries cf src) Tp 1 T.
+Proof. start. unfold parse_layer_geometries. run. Qed.
+Global Instance parse_via_mask_spec : Spec (parse_via_mask cf src) Tp 0 T.
+Proof. start. unfold parse_via_mask. run. Qed.
+Global Instance parse_via_shape_spec : Spec (parse_via_shape cf src) Tp 1 T.
+Proof. start. unfold parse_via_shape. run. Qed.
+Global Instance via_layer_loop_spec f : forall acc, Spec (via_layer_loop cf src f acc) (fuel_pre f) 0 T.
+Proof. loop f. cbn [via_layer_loop]. run. Qed.
+Global Instance parse_via_layer_geometries_spec : Spec (parse_via_layer_geometries cf src) Tp 1 T.
+Proof. start. unfold parse_via_layer_geometries. run. Qed.
+Global Instance port_loop_spec f : forall cl ly, Spec (port_loop cf src f cl ly) (fuel_pre f) 0 T.
+Proof. loop f. cbn [port_loop]. run. Qed.
+Global Instance parse_port_spec : Spec (parse_port cf src) Tp 1 T.
+Proof. start. unfold parse_port. run. Qed.
+Global Instance density_rect_loop_spec f : forall acc, Spec (density_rect_loop cf src f acc) (fuel_pre f) 0 T.
+Proof. loop f. cbn [density_rect_loop]. run. Qed.
+Global Instance density_loop_spec f : forall acc, Spec (density_loop cf src f acc) (fuel_pre f) 0 T.
+Proof. loop f. cbn [density_loop]. run. Qed.
+Global Instance parse_density_spec : Spec (parse_density cf src) Tp 1 T.
+Proof. start. unfold parse_density. run. Qed.
+Global Instance obs_loop_spec f : forall acc, Spec (obs_loop cf src f acc) (fuel_pre f) 0 T.
+Proof. loop f. cbn [obs_loop]. run. Qed.
+Global Instance parse_obstructions_spec : Spec (parse_obstructions cf src) Tp 1 T.
+Proof. start. unfold parse_obstructions. run. Qed.
+Global Instance property_loop_spec f : forall acc, Spec (property_loop cf src f acc) (fuel_pre f) 0 T.
+Proof. loop f. cbn [property_loop]. run. Qed.
+Global Instance parse_property_spec acc : Spec (parse_property cf src acc) Tp 1 T.
+Proof. start. unfold parse_property. run. Qed.
+Global Instance parse_pin_direction_spec : Spec (parse_pin_direction cf src) Tp 1 T.
+Proof. start. unfold parse_pin_direction. run. Qed.
+Global Instance ident_stmt_spec : Spec (ident_stmt cf src) Tp 1 T.
+Proof. start. unfold ident_stmt. run. Qed.
+Global Instance enum_stmt_spec {X} (f : bytes -> option X) : Spec (enum_stmt cf src f) Tp 1 T.
+Proof. start. unfold enum_stmt. run. Qed.
+Global Instance pin_loop_spec f : forall pin props, Spec (pin_loop cf src f pin props) (fuel_pre f) 0 T.
+Proof. loop f. cbn [pin_loop]. run. Qed.
+Global Instance parse_pin_spec : Spec (parse_pin cf src) Tp 1 T.
+Proof. start. unfold parse_pin. run. Qed.
+Global Instance macro_loop_spec f : forall mac props, Spec (macro_loop cf src f mac props) (fuel_pre f) 0 T.
+Proof. loop f. cbn [macro_loop]. run. Qed.
+Global Instance parse_macro_spec : Spec (parse_macro cf src) Tp 1 T.
+Proof. start. unfold parse_macro. run. Qed.
+Global Instance parse_property_definition_tail_spec : Spec (parse_property_definition_tail cf src) Tp 1 T.
+Proof. start. unfold parse_property_definition_tail. run. Qed.
+Global Instance propdefs_loop_spec f : forall acc, Spec (propdefs_loop cf src f acc) (fuel_pre f) 0 T.
+Proof. loop f. cbn [propdefs_loop]. run. Qed.
+Global Instance parse_property_definitions_spec : Spec (parse_property_definitions cf src) Tp 1 T.
+Proof. start. unfold parse_property_definitions. run. Qed.
+Global Instance unit_stmt_spec k : Spec (unit_stmt cf src k) Tp 1 T.
+Proof. start. unfold unit_stmt. run. Qed.
+Global Instance units_loop_spec f : forall u, Spec (units_loop cf src f u) (fuel_pre f) 0 T.
+Proof. loop f. cbn [units_loop]. run. Qed.
+Global Instance parse_units_spec : Spec (parse_units cf src) Tp 1 T.
+Proof. start. unfold parse_units. run. Qed.
+Global Instance site_loop_spec f : forall name cl sz sy, Spec (site_loop cf src f name cl sz sy) (fuel_pre f) 0 T.
+Proof. loop f. cbn [site_loop]. run. Qed.
+Global Instance parse_site_def_spec : Spec (parse_site_def cf src) Tp 1 T.
+Proof. start. unfold parse_site_def. run. Qed.
+Global Instance gen_via_loop_spec f : forall b, Spec (gen_via_loop cf src f b) (fuel_pre f) 0 T.
+Proof. loop f. cbn [gen_via_loop]. run. Qed.
+Global Instance fixed_via_layers_loop_spec f : forall acc, Spec (fixed_via_layers_loop cf src f acc) (fuel_pre f) 0 T.
+Proof. loop f. cbn [fixed_via_layers_loop]. run. Qed.
+Global Instance parse_via_spec : Spec (parse_via cf src) Tp 1 T.
+Proof. start. unfold parse_via. run. Qed.
+Global Instance parse_bus_bit_chars_spec : Spec (parse_bus_bit_chars cf src) Tp 1 T.
+Proof. start. unfold parse_bus_bit_chars. run. Qed.
+Global Instance parse_divider_char_spec : Spec (parse_divider_char cf src) Tp 1 T.
+Proof. start. unfold parse_divider_char. run. Qed.
+Global Instance ext_loop_spec f : forall data, Spec (ext_loop cf src f data) (fuel_pre f) 0 T.
+Proof. loop f. cbn [ext_loop]. run. Qed.
+Global Instance onoff_stmt_spec : Spec (onoff_stmt cf src) Tp 1 T.
+Proof. start. unfold onoff_stmt. run. Qed.
+Global Instance lib_loop_spec f : forall lib, Spec (lib_loop cf src f lib) (fuel_pre f) 0 T.
+Proof. loop f. cbn [lib_loop]. run. Qed.
+Global Instance parse_lib_spec : Spec (parse_lib cf src) Tp 0 T.
+Proof. start. unfold parse_lib. run. Qed.
+
+End Safe.
+
+Theorem parse_safe_gen : forall cf src, c_charpos cf = false -> starts_on_boundary src = true ->
+  parse cf src <> Panic /\ parse cf src <> OutOfFuel.
+Proof.
+  intros cf src Hcf Hsrc. unfold parse. rewrite Hcf.
+  destruct (lex false src) as [toks e] eqn:L.
+  destruct (lex_ok_gen _ _ _ Hsrc L) as (F & E & _).
+  assert (Hok : st_ok src (mkpst toks e V5P8 [])) by (split; assumption).
+  pose proof (parse_lib_spec cf src Hcf Hsrc _ Hok I) as H.
+  destruct (parse_lib cf src (mkpst toks e V5P8 [])) as [[l st']|er| | |]; simpl in H; try contradiction;
+    destruct toks; destruct e; simpl in E; try contradiction; split; discriminate.
+Qed.
+
+Theorem parse_no_panic : forall cf src, c_charpos cf = false -> utf8_valid src -> parse cf src <> Panic.
+Proof. intros cf src Hcf V. apply (parse_safe_gen cf src Hcf (valid_starts_on_boundary _ V)). Qed.
+Theorem parse_terminates : forall cf src, c_charpos cf = false -> utf8_valid src -> parse cf src <> OutOfFuel.
+Proof. intros cf src Hcf V. apply (parse_safe_gen cf src Hcf (valid_starts_on_boundary _ V)). Qed.
+Theorem parse_total : forall cf src, c_charpos cf = false -> utf8_valid src ->
+  (exists l, parse cf src = Ok l) \/ (exists e, parse cf src = Err e) \/ parse cf src = Unmodelled.
+Proof.
+  intros cf src Hcf V. destruct (parse_safe_gen cf src Hcf (valid_starts_on_boundary _ V)) as [A B].
+  destruct (parse cf src) as [l|e| | |]; try congruence; eauto.
+Qed.
+Theorem fuel_linear : forall cm src, lex_fuel src = S (length src) /\
+  forall v c, (fuel_of (mkpst (fst (lex cm src)) (snd (lex cm src)) v c) <= S (length src))%nat.
+Proof.
+  intros cm src. split; [reflexivity|]. intros v c. unfold fuel_of. simpl.
+  pose proof (lex_count cm src). lia.
+Qed.
